@@ -650,19 +650,13 @@ impl Expression for FunctionCall {
     fn resolve(&self, ctx: &mut Context) -> Resolved {
         self.expr.resolve(ctx).map_err(|err| match err {
             ExpressionError::Abort { .. }
+            | ExpressionError::Return { .. }
             | ExpressionError::Fallible { .. }
             | ExpressionError::Missing { .. } => {
-                // propagate the error
+                // propagate the error; a `return` raised while evaluating an argument ends the
+                // program (closure bodies are run by `closure::Runner`, which handles `return`)
                 err
             }
-            ExpressionError::Return { span, .. } => ExpressionError::Error {
-                message: "return cannot be used inside closures".to_owned(),
-                labels: vec![Label::primary(
-                    "return cannot be used inside closures",
-                    span,
-                )],
-                notes: Vec::new(),
-            },
             ExpressionError::Error {
                 message,
                 mut labels,
